@@ -91,7 +91,20 @@ RewriteDrift(r) ==
     IF r.has_out /\ ~r.join /\ StripIndent(r.out) # StripIndent(RewriteSplice(SubSeq(r.src, r.cs + 1, r.ce), RewriteEdits(r.cands), r.cs))
     THEN {"rewrite-splice-model"} ELSE {}
 
-Reasons(r) == IF r.mode = "tpl" THEN TplReasons(r) ELSE IF r.mode = "rewrite" THEN RewriteReasons(r) ELSE EditReasons(r)
+\* ---- C07, "or the transformed string" -----------------------------------------------
+\* vals: what every variable stands for - captured text, or the string a transformation produced; single-line values
+ValOf(r, name, multi) ==
+    LET ks == { k \in 1..Len(r.vals) : r.vals[k].name = name /\ r.vals[k].multi = multi } IN
+    IF ks = {} THEN <<>> ELSE r.vals[CHOOSE k \in ks : TRUE].val
+TplxExpected(r) ==
+    LET items == TemplateP(r.raw, 1) IN
+    FlattenSeq([k \in 1..Len(items) |-> IF ~items[k].v THEN <<items[k].c>> ELSE ValOf(r, items[k].name, items[k].multi)])
+TplxReasons(r) ==
+    (IF r.panic THEN {"panic"} ELSE {})
+    \cup (IF ~TemplateJudged(r.raw, 1) \/ r.out = TplxExpected(r) THEN {} ELSE {"replacement-text"})
+
+Reasons(r) == IF r.mode = "tpl" THEN TplReasons(r) ELSE IF r.mode = "tplx" THEN TplxReasons(r)
+              ELSE IF r.mode = "rewrite" THEN RewriteReasons(r) ELSE EditReasons(r)
 Drift(r)   == IF r.mode = "tpl" THEN TplDrift(r) ELSE IF r.mode = "rewrite" THEN RewriteDrift(r) ELSE {}
 
 Init == l = 1 /\ pFail = <<>>
